@@ -1,5 +1,6 @@
 """Registry: which units decide which property."""
 from kani_engine import KUnit
+from verus_engine import VUnit
 from common import seed_int
 
 I64_MIN, I64_MAX = -(2 ** 63), 2 ** 63 - 1
@@ -104,4 +105,30 @@ PROPS["C06"] = Prop(
         "core::i64::wrapping_rem(a,b) == (if b == -1 {0} else {a % b}) (its definition in core)",
     ],
     not_covered=["literal decoding", "`..` range construction", "op-assign on elements/properties beyond the shared helper"],
+)
+
+
+V_CTL = VUnit("ctl", "ctl", ["eval::eval_stmts_with_scope_stack", "eval::eval_stmt (all 13 arms)", "eval::eval_prog"])
+
+VERUS_TRUST = [
+    "Verus 0.2026.09.13 / Z3: soundness of the verifier and of vstd's specifications of Vec, Option, Result, String::clone, vec!, Iterator::next (prophetic iterator model)",
+    "extraction D1-D5 (printed per run under samples[].edits): the verified text is the text of /repo apart from the listed, counted edits",
+    "A-ext: every external callee is deterministic in (abstract world, arguments) - contracts are uninterpreted functions, so proofs hold for every such behaviour",
+    "A-lock: lock_deref!/try_lock succeed (no lock-discipline claim in Engine V)",
+]
+
+PROPS["C07"] = Prop(
+    "C07", "proof",
+    "Unit V-ctl: eval_stmts_with_scope_stack, eval_stmt and eval_prog are copied verbatim from /repo on every run and "
+    "verified by Verus against the control-flow reading of the property (spec_stmts / spec_stmt / spec_if / spec_while / spec_for): "
+    "for every behaviour of the callees (uninterpreted contracts), every statement list, every nesting, with no bound. "
+    "Partial correctness (termination of user loops is not claimed).",
+    vunits=[V_CTL],
+    assumptions=[
+        "eval_stmts / eval_stmts_in_new_scope (scope push, parameter binding, delegation to the sequence evaluator) are under an assumed contract here",
+        "eval_call's treatment of the signal at the call boundary is a separate unit (V-call) if present",
+        "value_to_pairs is modelled as a function of the iterable's value at its single call",
+    ],
+    trusted_base=VERUS_TRUST,
+    not_covered=["termination", "callees honouring their side of the contract (they are other units / other properties)"],
 )
